@@ -1,4 +1,5 @@
 import Mutiny.Proofs.Ring32Sim
+import Mutiny.Proofs.LockRing32Sim
 
 /-!
 # C15, machine level — the `u32` ring `Ring32` is the image modulo 2^32 of the free-running ring `Ring` (M1)
@@ -90,6 +91,43 @@ example :
       (fun s => (s.head, s.tail, s.enqTail, s.thr 1, s.delivered.map (·.2.2)))
     = some (4294967294, 0, 0, .done (.got 22), [11, 22]) := by decide
 
+end Mutiny.Ring32
+
+namespace Mutiny.LockRing32
+open Mutiny.LockRing Mutiny.U32
+
+/-- **the full-sync ring** (`FullSyncMove`): the `u32` machine `LockRing32` is, action for action and for runs of any length, the
+    image modulo 2^32 of model M2 — no hypothesis on threads or schedules at all (under the lock there are no over-claims);
+    only `N ∣ 2^32` and `N < 2^31` (the consumer's emptiness test is signed).  It never panics. -/
+theorem c15_lockring_refinement (n : Nat) (hn : 0 < n) (hN : M32 % n = 0) (hNs : n ≤ 2147483647) (as : List Act) :
+    run32 (img (LockRing.init n)) as = some (img (LockRing.run (LockRing.init n) as)) :=
+  sim_run (LockRing.init n) as (inv_init n hn) hN hNs
+
+theorem c15_lockring_refinement_from (s : St) (h : Inv s) (hN : M32 % s.N = 0) (hNs : s.N ≤ 2147483647) (as : List Act) :
+    run32 (img s) as = some (img (LockRing.run s as)) :=
+  sim_run s as h hN hNs
+
+/-- results, payloads and the lock are untouched by the image -/
+theorem c15_lockring_same_observables (s : St) :
+    (img s).thr = s.thr ∧ (img s).buf = s.buf ∧ (img s).accepted = s.accepted ∧ (img s).locked = s.locked := ⟨rfl, rfl, rfl, rfl⟩
+
+/-- a concrete run on a ring whose counters start 2 below the wrap: three sends, two receives, a length query — counters wrap,
+    answers are those of a fresh ring -/
+example :
+    (run32 (init32 4 4294967294)
+      [.send 0 11, .step 0, .step 0, .step 0, .step 0, .step 0, .ack 0, .send 0 22, .step 0, .step 0, .step 0, .step 0, .step 0, .ack 0,
+       .send 0 33, .step 0, .step 0, .step 0, .step 0, .step 0, .ack 0,
+       .recv 1, .step 1, .step 1, .step 1, .step 1, .step 1, .ack 1, .len 2, .step 2]).map
+      (fun s => (s.head, s.tail, s.thr 2, s.delivered.map (·.2.2)))
+    = some (4294967295, 1, .done (.len 2), [11]) := by decide
+
+#print axioms c15_lockring_refinement
+#print axioms c15_lockring_refinement_from
+#print axioms c15_lockring_same_observables
+
+end Mutiny.LockRing32
+
+namespace Mutiny.Ring32
 #print axioms c15_step_refines
 #print axioms c15_refinement
 #print axioms c15_refinement_from
